@@ -136,6 +136,7 @@ def check(R, tier):
     import props.c10_units as U
     U.from_signed(R, I, tier)
     U.signed_role_new(R, I, tier)
+    U.update_delegated(R, I, tier)
     native(R, tier)
 
 def native(R, tier):
@@ -166,13 +167,20 @@ def native(R, tier):
                 R.report_violation('editing program: ' + r2['violations'][0], {'op': 'editor_program', 'program': sc.get('program'), 'listed_before': sc.get('listed_before')})
         else:
             R.inconclusive.append(f'counterexample for "{cx["obligation"]}" did not reproduce natively: {json.dumps(sc)[:300]} -> {json.dumps(r2)[:200]}')
-    others = [c for c in R.counterexamples if c['group'] != 'program/target-set']
+    # the cross-party flow: genuine / same-version / under-signed / wrong keys / mixed / older / unsigned hand-overs against the real editor
+    cp = R.replay('cross_party', {'seed': seed}, timeout=600)
+    R.differential['scenarios'] += cp['cases']; R.differential['agree'] += cp['cases'] - len(cp['deviations'])
+    for d in cp['deviations'][:2]:
+        R.report_violation('cross-party update: ' + d['what'], {'op': 'cross_party', 'seed': seed, 'native': d})
+    others = [c for c in R.counterexamples if c['group'] != 'program/target-set' and not (c['group'].startswith('update/') and cp['deviations'])]
     if others and not real:
         for cx in others[:3]:
             R.inconclusive.append(f'counterexample for "{cx["obligation"]}" did not show up in the native editor sweep ({st["programs"]} programs): {str(cx.get("scenario"))[:300]}')
 
 def replay_file(R, path):
     sc = json.load(open(path))['scenario']
+    if sc.get('op') == 'cross_party':
+        print(json.dumps(R.replay('cross_party', {'seed': sc.get('seed', 0)}))); return 0
     if sc.get('op') == 'editor_program':
         print(json.dumps(R.replay('editor_program', {'program': sc['program'], 'listed_before': sc['listed_before']}))); return 0
     res = R.replay('editor_roundtrip', {'seed': sc.get('seed', 0), 'programs': sc.get('program', 0) + 1}, timeout=3000)
